@@ -791,8 +791,11 @@ def run(ctx):
         "s >= 1; order None or >= 0; laplacian/multiorder orders are ints; the default `weight` callback of incidence_matrix",
         "rescale_per_node with order 0 divides by zero: the model answers `undefined` and the implementation's NaN matrix (dense) / "
         "ZeroDivisionError (sparse) are both read as `undefined`; multiorder order lists containing 0 are generated only without rescaling",
-        "normalised Laplacian: the model is the textbook matrix (weighted vertex degree, see proposed_fixes/C12-normalized-weighted-degree.diff); "
-        "sqrt is taken by the harness (entry-wise delta_ik - M_ik / sqrt(Dv_i Dv_k) from the model's rational M and Dv)",
+        "normalised Laplacian: the model describes the code as it is (unweighted vertex degree also for weighted=True); the predicate "
+        "checks the textbook matrix with weighted vertex degrees and PSD for every generated weight list, which the unchanged code "
+        "violates for weights != 1 (known finding); sqrt is taken by the harness (entry-wise delta_ik - M_ik / sqrt(Dv_i Dv_k) from "
+        "the model's rational M and Dv); networks with an empty edge are not generated for this function (delta(e) = 0: NaN dense, "
+        "finite sparse)",
         "sparse == dense is a fact about scipy exhibited by the runs only",
     ]
     return finish(ctx, trusted_base=TRUSTED)
